@@ -46,6 +46,10 @@ type Exec struct {
 	usedContr   map[string]bool
 	budget      int
 	inSpec      int
+	usedInv     map[string]bool
+	readKeys    map[string]bool
+	specMemo    map[string]Value
+	reveal      map[string]bool
 }
 
 type deferred struct {
@@ -84,10 +88,16 @@ func (ex *Exec) warn(format string, a ...interface{}) {
 	}
 }
 
-func (ex *Exec) assume(pc *Term, fact *Term) {
+// assumePath restricts attention to executions that continue (no panic at this point): meaningless while
+// evaluating a specification expression, where it is skipped.
+func (ex *Exec) assumePath(pc *Term, fact *Term) {
 	if ex.inSpec > 0 {
 		return
 	}
+	ex.assume(pc, fact)
+}
+
+func (ex *Exec) assume(pc *Term, fact *Term) {
 	if fact.Op == "and" {
 		for _, c := range fact.Args {
 			ex.assume(pc, c)
@@ -154,8 +164,15 @@ func (ex *Exec) assumeTyped(st *State, v Value) {
 			ex.assume(st.pc, Ge(t, IntLit(0)))
 		case "slen":
 			ex.assume(st.pc, And(Ge(t, IntLit(0)), Le(t, v.C[i+1])))
+			if i >= 2 {
+				ex.assume(st.pc, Implies(Eq(v.C[i-2], IntLit(0)), Eq(v.C[i+1], IntLit(0))))
+			}
 		case "scap":
-			ex.assume(st.pc, Le(t, BigLit(maxInt64)))
+			if c.GoT != nil {
+				ex.assume(st.pc, Le(t, BigLit(maxSliceCap(c.GoT))))
+			} else {
+				ex.assume(st.pc, Le(t, BigLit(maxInt64)))
+			}
 		case "str":
 			ex.assume(st.pc, Ge(UF("str_len", IntSort, t), IntLit(0)))
 		}
@@ -191,7 +208,14 @@ func (ex *Exec) readLoc(st *State, loc *Loc) Value {
 		case LElem:
 			v.C[j] = Select(Select(st.heap.Get(loc.Keys[k], ArraySort(IntSort, ArraySort(IntSort, c.Sort))), loc.Ref), loc.Idx)
 		case LGlobal:
-			v.C[j] = st.heap.Get(loc.Keys[k], c.Sort)
+			if ex.eng.immutableGlobal[loc.Keys[k]] {
+				v.C[j] = Const(loc.Keys[k]+"@init", c.Sort)
+			} else {
+				v.C[j] = st.heap.Get(loc.Keys[k], c.Sort)
+			}
+		}
+		if ex.readKeys != nil && loc.Kind != LLocal {
+			ex.readKeys[loc.Keys[k]] = true
 		}
 	}
 	return v
@@ -232,6 +256,14 @@ func (ex *Exec) writeLoc(st *State, loc *Loc, val Value) {
 }
 
 func (ex *Exec) allocRef(st *State) *Term {
+	if ex.inSpec > 0 {
+		// allocation while evaluating a specification expression: a reference of its own, never the
+		// number of a real allocation of the program (which would tie two dynamic types to one reference)
+		r := Fresh("specref", IntSort)
+		ex.assume(True, Gt(r, st.wm))
+		st.wm = r
+		return r
+	}
 	r := Add(st.wm, IntLit(1))
 	st.wm = r
 	return r
@@ -609,6 +641,23 @@ func (ex *Exec) bindingError(fname, kind, label string, c Clause, err error) {
 	ex.eng.bindingErrors = append(ex.eng.bindingErrors, fmt.Sprintf("%s#%s:%s: %v (%s:%d)", fname, kind, label, err, c.File, c.Line))
 }
 
+// assumeInvariants: global state invariants hold in every state reachable by the program.
+func (ex *Exec) assumeInvariants(st *State) {
+	if ex.inSpec > 0 && ex.topFn == nil {
+		return
+	}
+	for _, inv := range ex.eng.contracts.Invs {
+		env := &Env{ex: ex, vars: map[string]Value{}, st: st, old: st, pkg: ex.eng.pkgByName[inv.Pkg]}
+		g, err := env.boolExpr(inv.E, false)
+		if err != nil {
+			ex.eng.bindingErrors = append(ex.eng.bindingErrors, fmt.Sprintf("invariant %s: %v", inv.Name, err))
+			continue
+		}
+		ex.assumePath(st.pc, g)
+		ex.usedInv[inv.Name] = true
+	}
+}
+
 // havoc replaces everything in ws by fresh symbols.
 func (ex *Exec) havoc(st *State, ws *WriteSet, why string, fr *Frame) {
 	for a := range ws.locals {
@@ -626,7 +675,12 @@ func (ex *Exec) havoc(st *State, ws *WriteSet, why string, fr *Frame) {
 	}
 	if ws.all {
 		ex.warn("havoc of the whole heap at %s: %s", why, ws.why)
+		old := st.heap
 		st.heap = newHeap(st.wm)
+		if len(ws.except) > 0 {
+			st.heap.base.except = ws.except
+			st.heap.base.exceptParent = old
+		}
 	} else {
 		for k := range ws.keys {
 			srt, ok := keySortReg[k]
@@ -636,6 +690,9 @@ func (ex *Exec) havoc(st *State, ws *WriteSet, why string, fr *Frame) {
 			st.heap.m[k] = Fresh(k+"."+why, srt)
 			regHeapConst(st.heap.m[k], k, st.wm)
 		}
+	}
+	if ws.all || len(ws.keys) > 0 {
+		ex.assumeInvariants(st)
 	}
 	// locals must be re-typed
 	for a := range ws.locals {
@@ -821,7 +878,7 @@ func (ex *Exec) instr(fr *Frame, st *State, in ssa.Instruction, fname string) {
 		if ex.safetyOn(fr) {
 			ex.prove(fname, st, "makeslice", ex.srcLabel(i.Pos()), And(Ge(ln, IntLit(0)), Le(ln, cp)), "make: 0 <= len <= cap", i.Pos())
 		}
-		ex.assume(st.pc, And(Ge(ln, IntLit(0)), Le(ln, cp)))
+		ex.assumePath(st.pc, And(Ge(ln, IntLit(0)), Le(ln, cp)))
 		et := i.Type().Underlying().(*types.Slice).Elem()
 		r := ex.allocRef(st)
 		for j, k := range elemKeys(et) {
@@ -986,7 +1043,7 @@ func (ex *Exec) boundsCheck(fr *Frame, st *State, idx, ln *Term, fname string, p
 		ex.prove(fname, st, "bounds", ex.srcLabel(pos), g, what+" in range", pos)
 	}
 	// execution continues only when the access does not panic
-	ex.assume(st.pc, g)
+	ex.assumePath(st.pc, g)
 }
 
 func mapKeySort(mt *types.Map) *Sort {
@@ -1123,7 +1180,7 @@ func (ex *Exec) sliceOp(fr *Frame, st *State, i *ssa.Slice, fname string) {
 		if ex.safetyOn(fr) {
 			ex.prove(fname, st, "slice", ex.srcLabel(i.Pos()), g, "slice bounds in range", i.Pos())
 		}
-		ex.assume(st.pc, g)
+		ex.assumePath(st.pc, g)
 		fr.regs[i] = Value{T: i.Type(), C: []*Term{x.C[0], Add(x.C[1], lo), Sub(hi, lo), Sub(mx, lo)}}
 	case *types.Basic:
 		ln := UF("str_len", IntSort, x.one())
@@ -1133,7 +1190,7 @@ func (ex *Exec) sliceOp(fr *Frame, st *State, i *ssa.Slice, fname string) {
 		if ex.safetyOn(fr) {
 			ex.prove(fname, st, "slice", ex.srcLabel(i.Pos()), g, "string slice bounds in range", i.Pos())
 		}
-		ex.assume(st.pc, g)
+		ex.assumePath(st.pc, g)
 		r := UF("str_sub", StrSort, x.one(), lo, hi)
 		ex.assume(st.pc, Eq(UF("str_len", IntSort, r), Sub(hi, lo)))
 		fr.regs[i] = Value{T: i.Type(), C: []*Term{r}}
@@ -1153,7 +1210,7 @@ func (ex *Exec) sliceOp(fr *Frame, st *State, i *ssa.Slice, fname string) {
 		if ex.safetyOn(fr) {
 			ex.prove(fname, st, "slice", ex.srcLabel(i.Pos()), g, "slice bounds in range", i.Pos())
 		}
-		ex.assume(st.pc, g)
+		ex.assumePath(st.pc, g)
 		fr.regs[i] = Value{T: i.Type(), C: []*Term{ref, lo, Sub(hi, lo), Sub(mx, lo)}}
 	default:
 		ex.unsupported(fr, st, i, "slice of "+typeStr(i.X.Type()))
@@ -1228,12 +1285,22 @@ func (ex *Exec) binop(fr *Frame, st *State, i *ssa.BinOp, fname string) {
 	y := ex.val(fr, st, i.Y)
 	t := i.X.Type()
 	set := func(tm *Term) { fr.regs[i] = Value{T: i.Type(), C: []*Term{tm}} }
-	switch i.Op {
-	case token.EQL:
-		set(valuesEqual(x, y))
-		return
-	case token.NEQ:
-		set(Not(valuesEqual(x, y)))
+	if i.Op == token.EQL || i.Op == token.NEQ {
+		var eq *Term
+		if _, isSlice := t.Underlying().(*types.Slice); isSlice {
+			// a slice can only be compared with nil: nil-ness is the data pointer
+			other := x
+			if c, ok := i.X.(*ssa.Const); ok && c.Value == nil {
+				other = y
+			}
+			eq = Eq(other.C[0], IntLit(0))
+		} else {
+			eq = valuesEqual(x, y)
+		}
+		if i.Op == token.NEQ {
+			eq = Not(eq)
+		}
+		set(eq)
 		return
 	}
 	switch {
@@ -1250,13 +1317,13 @@ func (ex *Exec) binop(fr *Frame, st *State, i *ssa.BinOp, fname string) {
 			if ex.safetyOn(fr) {
 				ex.prove(fname, st, "div", ex.srcLabel(i.Pos()), Not(Eq(b, IntLit(0))), "integer division by zero", i.Pos())
 			}
-			ex.assume(st.pc, Not(Eq(b, IntLit(0))))
+			ex.assumePath(st.pc, Not(Eq(b, IntLit(0))))
 			set(wrapInt(TDiv(a, b), i.Type(), true))
 		case token.REM:
 			if ex.safetyOn(fr) {
 				ex.prove(fname, st, "div", ex.srcLabel(i.Pos()), Not(Eq(b, IntLit(0))), "integer division by zero", i.Pos())
 			}
-			ex.assume(st.pc, Not(Eq(b, IntLit(0))))
+			ex.assumePath(st.pc, Not(Eq(b, IntLit(0))))
 			set(TMod(a, b))
 		case token.LSS:
 			set(Lt(a, b))
@@ -1285,13 +1352,13 @@ func (ex *Exec) binop(fr *Frame, st *State, i *ssa.BinOp, fname string) {
 		a, b := x.one(), y.one()
 		switch i.Op {
 		case token.ADD:
-			set(mk("fp.add", F64Sort, a, b))
+			set(F64Arith("add", a, b))
 		case token.SUB:
-			set(mk("fp.sub", F64Sort, a, b))
+			set(F64Arith("sub", a, b))
 		case token.MUL:
-			set(mk("fp.mul", F64Sort, a, b))
+			set(F64Arith("mul", a, b))
 		case token.QUO:
-			set(mk("fp.div", F64Sort, a, b))
+			set(F64Arith("div", a, b))
 		case token.LSS:
 			set(mk("fp.lt", BoolSort, a, b))
 		case token.LEQ:
@@ -1427,7 +1494,7 @@ func (ex *Exec) typeAssert(fr *Frame, st *State, i *ssa.TypeAssert, fname string
 	if ex.safetyOn(fr) {
 		ex.prove(fname, st, "typeassert", ex.srcLabel(i.Pos()), ok, "type assertion holds", i.Pos())
 	}
-	ex.assume(st.pc, ok)
+	ex.assumePath(st.pc, ok)
 	fr.regs[i] = res
 }
 
